@@ -30,28 +30,28 @@ func (v tval) String() string {
 }
 
 type tableRow struct {
-	atoms   map[string]tval
-	result  tval
-	reached bool
-	errExit bool // the region was left through a failing return before the target
+	atoms     map[string]tval
+	result    tval
+	reached   bool
+	errExit   bool // the region was left through a failing return before the target
 	stored    bool // a tracked field was written on the way
 	storedVal tval
 }
 
 type tableInterp struct {
-	L      *Loaded
-	sym    *symCtx
-	env    map[string]tval
-	atoms  map[string]bool // discovered atom ids -> isBool
+	L       *Loaded
+	sym     *symCtx
+	env     map[string]tval
+	atoms   map[string]bool // discovered atom ids -> isBool
 	phi     map[*ssa.Phi]tval
 	failed  string
 	errExit bool
 	strs    map[string]int64
 	vals    map[string]ssa.Value
 	// track: field key whose stores are recorded while interpreting (last value wins)
-	track      string
-	stored     bool
-	storedVal  tval
+	track     string
+	stored    bool
+	storedVal tval
 }
 
 func (it *tableInterp) atomID(v ssa.Value) string {
